@@ -50,15 +50,21 @@ OutputContextStack::~OutputContextStack()
 void
 OutputContextStack::pushContext(FormatterListener*  theListener)
 {
-    ++m_stackPosition;
-    ++m_stackSize;
+    OutputContextStackType::iterator    theNextPosition = m_stackPosition;
 
-    if (m_stackPosition == m_stack.end())
+    ++theNextPosition;
+
+    if (theNextPosition == m_stack.end())
     {
+        // This may fail.  The position and the size must not
+        // have changed then: reset() pops down from the position.
         m_stack.resize(m_stack.size() + 1);
 
-        m_stackPosition = m_stack.end() - 1;
+        theNextPosition = m_stack.end() - 1;
     }
+
+    m_stackPosition = theNextPosition;
+    ++m_stackSize;
 
     if (theListener != 0)
     {
